@@ -114,7 +114,7 @@ pub struct Model {
 /// Which properties own a clause.
 pub fn owners(clause: &str) -> &'static [&'static str] {
     match clause {
-        "must-hit" => &["C01", "C05"],
+        "must-hit" | "stored-expiry-short" => &["C01", "C05"],
         "value-exact" | "flags-exact" | "cas-nonzero" => &["C01"],
         "cas-reported" => &["C01", "C02"],
         "other-key-changed" => &["C01", "C08"],
